@@ -556,6 +556,7 @@ class Rewriter:
         b = self.map_calls(b, r'\bAlloc::alloc', lambda m_, a: 'arena_alloc(ar, %s)' % ', '.join(a[1:]), 'R20:arena-alloc')
         b = self.map_calls(b, r'\bself\.a\.dealloc', lambda m_, a: 'arena_dealloc(ar, %s)' % ', '.join(a), 'R20:arena-dealloc')
         b = self.map_calls(b, r'\bself\.dealloc_buffer', lambda m_, a: 'self.dealloc_buffer(ar)', 'R12:thread-arena')
+        b = self.map_calls(b, r'\bself\.(reserve_internal_or_error|reserve_internal)', lambda m_, a: 'self.%s(ar, %s)' % (m_.group(1), ', '.join(a)), 'R12:thread-arena')
         b = self.map_calls(b, r'\bLayout::from_size_align_unchecked', lambda m_, a: '(Layout { size_: %s, align_: %s })' % (a[0], a[1]), 'R8:layout-unchecked')
         # `if let (Err(AllocErr), Infallible) = (&res, fallibility)`  ==  res is Err and the caller asked for the infallible flavour
         b = self.sub('R20:err-and-infallible', r'if let \(Err\(AllocErr\), Infallible\) = \(&(\w+), (\w+)\)', r'if err_and_infallible(&\1, \2)', b)
@@ -681,6 +682,17 @@ class Rewriter:
             # R17: `Bound<&usize>` patterns lose the reference (the model's bounds hold values); `self.is_char_boundary` is a shim
             b = self.sub('R17:bound-deref', r'\b(Included|Excluded)\(&(\w+)\)', r'\1(\2)', b)
             b = self.sub('R17:is_char_boundary', r'\bself\.is_char_boundary\(', 'is_char_boundary(', b)
+        if kind == 'dedup':
+            # R21: slots as indices; the comparison closure and the element moves as shims over a ghost "all slots distinct" flag
+            b = self.sub('R21:base-ptr', r'\bs\.as_mut_ptr\(\)', '(0usize)', b)
+            b = self.sub('R21:reborrow', r'&mut \*(\w+)', r'\1', b)
+            b = self.sub('R21:ptr-offset', r'\b(\w+)\.offset\((-?\d+)\)', r'idx_offset(\1, \2)', b)
+            b = self.map_calls(b, r'(?<![\w.:])same_bucket', lambda m_, a: 'cb_same_bucket(vs, %s)' % ', '.join(a), 'R21:callback')
+            b = self.map_calls(b, r'(?<![\w.])mem::swap', lambda m_, a: 'slot_swap(vs, %s)' % ', '.join(a), 'R21:slot-swap')
+            b = self.map_calls(b, r'(?<![\w.:])ptr::copy_nonoverlapping', lambda m_, a: 'slot_copy(vs, %s)' % ', '.join(a[:2]), 'R21:slot-copy')
+            b = self.map_calls(b, r'(?<![\w.:])ptr::copy', lambda m_, a: 'slot_copy(vs, %s)' % ', '.join(a[:2]), 'R21:slot-copy')
+            b = self.map_calls(b, r'(?<![\w.:])ptr::write', lambda m_, a: 'slot_copy(vs, %s)' % ', '.join(reversed(a[:2])), 'R21:slot-copy')
+            b = self.sub('R21:needs_drop', r'\bmem::needs_drop::<\s*T\s*>\(\)', 'NEEDS_DROP()', b)
         if kind == 'rawvecgrow':
             b = self.rawvecgrow_rules(b)
         if kind == 'drainfilter':
